@@ -5,6 +5,7 @@ CONSTANTS
   MaxNonNone = 2
   MaxScopes = 2
   Dmarcs = {"off"}
+  ExtraV = {"rq"}
   Only1On = FALSE
   WithRemote = TRUE
   Kinds = {"pipe"}
